@@ -55,10 +55,7 @@ Theorem C13_leap_rule_correct :
   (forall y, days_before_year (y + 1) = days_before_year y + (if is_leap y then 366 else 365)) /\
   (forall y, is_leap y = true <-> (y mod 4 = 0 /\ y mod 100 <> 0) \/ y mod 400 = 0) /\
   (forall y, year_ms y = (days_before_year (y + 1) - days_before_year y) * ms_per_day).
-Proof.
-  exact (conj year_of_ms_spec (conj year_of_days_unique (conj days_before_year_1970
-        (conj days_before_year_succ (conj is_leap_spec year_ms_is_year_length))))).
-Qed.
+Proof. exact leap_rule_correct. Qed.
 Print Assumptions C13_leap_rule_correct.
 
 (** Minting never lifts the supply above the maximum. *)
@@ -160,9 +157,5 @@ Theorem C13_nonvacuous :
               mkblk 1700000015000 1000000000000000000000000000 (Some (true, 7800000000000000000))]
     = Some (mkst 1700000015000 (of_int 20000000000 + 1000) false 7800000000000000000
                  (of_int 20000000000 + 1000) 1000 0).
-Proof.
-  refine (conj ex_mint (conj _ ex_cap_run)).
-  destruct ex_year_boundaries as (_ & a & b & _ & _ & _ & c & d & _ & _ & _ & e & f & g).
-  exact (conj a (conj b (conj c (conj d (conj e (conj f g)))))).
-Qed.
+Proof. exact nonvacuous. Qed.
 Print Assumptions C13_nonvacuous.
